@@ -25,8 +25,9 @@ import tempfile
 import zlib
 
 from . import common
+from . import c16_cov
 from .c16_gen import (PYWS, gen_range_header, gen_len, gen_request, gen_elements_value,
-                      enum_small_headers, enum_medium_headers, enum_decision_table, enum_flow_table,
+                      enum_small_headers, enum_medium_headers, enum_decision_table, enum_flow_table, enum_extras_table,
                       content_bytes, httpdate)
 
 PROPERTY = 'C16'
@@ -400,8 +401,11 @@ def shrink_request(case, sig):
                 cands.append(dict(cur, lm=None))
         if cur['proto'] != '1.1':
             cands.append(dict(cur, proto='1.1'))
-        if cur['kind'] in ('tool', 'fobj'):
+        if cur['kind'] in ('tool', 'fobj', 'index'):
             cands.append(dict(cur, kind='file'))
+        for flag in ('dbg', 'disp', 'dname', 'precl', 'raw', 'cookie'):
+            if cur.get(flag):
+                cands.append({k: v for k, v in cur.items() if k != flag})
         n = len(content_bytes(cur))
         for n2 in (14, 3, 1):
             if n2 < n:
@@ -512,27 +516,44 @@ class _Env:
         env = self
         self.case = None
 
+        class _Raw:
+            """a file-like object without fileno(): serve_fileobj cannot tell its length"""
+
+            def __init__(self, data):
+                self._f = io.BytesIO(data)
+
+            def read(self, n=-1):
+                return self._f.read(n)
+
+            def close(self):
+                self._f.close()
+
+        def prepare(c):
+            resp = cherrypy.response
+            if c['hetag'] is not None:
+                resp.headers['ETag'] = c['hetag']
+            if c.get('precl'):
+                # a Content-Length somebody set before the file is served must not survive
+                resp.headers['Content-Length'] = 999
+            return dict(content_type='application/x-test', disposition=c.get('disp'), name=c.get('dname'),
+                        debug=bool(c.get('dbg')))
+
         class H:
             @cherrypy.expose
             def file(self):
                 c = env.case
-                if c['hetag'] is not None:
-                    cherrypy.response.headers['ETag'] = c['hetag']
-                return static.serve_file(c['path'], content_type='application/x-test')
+                return static.serve_file(c['path'], **prepare(c))
 
             @cherrypy.expose
             def fobj(self):
                 c = env.case
-                if c['hetag'] is not None:
-                    cherrypy.response.headers['ETag'] = c['hetag']
-                return static.serve_fileobj(open(c['path'], 'rb'), content_type='application/x-test')
+                return static.serve_fileobj(open(c['path'], 'rb'), **prepare(c))
 
             @cherrypy.expose
             def bio(self):
                 c = env.case
-                if c['hetag'] is not None:
-                    cherrypy.response.headers['ETag'] = c['hetag']
-                return static.serve_fileobj(io.BytesIO(c['content']), content_type='application/x-test')
+                kw = prepare(c)
+                return static.serve_fileobj(_Raw(c['content']) if c.get('raw') else io.BytesIO(c['content']), **kw)
 
             @cherrypy.expose
             def gen(self):
@@ -547,6 +568,8 @@ class _Env:
                 if c['lm'] is not None:
                     resp.headers['Last-Modified'] = c['lm']
                 resp.headers['Content-Type'] = 'application/x-test'
+                if c.get('cookie'):
+                    resp.cookie['c16'] = 'v'
                 body_set = False
                 for step in case_script(c):
                     if step == 'B':
@@ -564,15 +587,26 @@ class _Env:
             pass
 
         conf = {}
-        for st in (0, 1):
-            for k, extra in (('e0', {}), ('e1', {'tools.etags.on': True}),
-                             ('e2', {'tools.etags.on': True, 'tools.etags.autotags': True})):
-                k = 's%d%s' % (st, k)
-                setattr(Root, k, H())
-                conf['/' + k] = dict(extra)
-                if st:
-                    conf['/' + k]['response.stream'] = True
-                conf['/%s/sd' % k] = {'tools.staticdir.on': True, 'tools.staticdir.dir': self.dir}
+        for dbg in (0, 1):
+            for st in (0, 1):
+                for k, extra in (('e0', {}), ('e1', {'tools.etags.on': True}),
+                                 ('e2', {'tools.etags.on': True, 'tools.etags.autotags': True})):
+                    k = 'd%ds%d%s' % (dbg, st, k)
+                    setattr(Root, k, H())
+                    conf['/' + k] = dict(extra)
+                    if st:
+                        conf['/' + k]['response.stream'] = True
+                    if dbg and 'tools.etags.on' in extra:
+                        conf['/' + k]['tools.etags.debug'] = True
+                    sd = {'tools.staticdir.on': True, 'tools.staticdir.dir': self.dir,
+                          'tools.staticdir.index': 'index.txt'}
+                    if dbg:
+                        # the other way to configure the same directory, with logging on
+                        sd = {'tools.staticdir.on': True, 'tools.staticdir.root': os.path.dirname(self.dir),
+                              'tools.staticdir.dir': os.path.basename(self.dir), 'tools.staticdir.index': 'index.txt',
+                              'tools.staticdir.match': r'\.txt$|/$', 'tools.staticdir.debug': True,
+                              'tools.staticdir.content_types': {'txt': 'text/plain', 'bin': 'application/x-bin'}}
+                    conf['/%s/sd' % k] = sd
         self.app = cherrypy.Application(Root(), '', conf)
 
     @classmethod
@@ -588,18 +622,24 @@ class _Env:
             shutil.rmtree(cls.inst.dir, ignore_errors=True)
             cls.inst = None
 
-    def path_for(self, content):
-        key = hashlib.sha1(content).hexdigest()[:16] + '_%d' % len(content)
+    def path_for(self, content, index=False):
+        key = hashlib.sha1(content).hexdigest()[:16] + '_%d' % len(content) + ('i' if index else '')
         p = self.files.get(key)
         if p is None:
             if len(self.files) > 400:
                 for q in self.files.values():
                     try:
                         os.unlink(q)
+                        if q.endswith('index.txt'):
+                            os.rmdir(os.path.dirname(q))
                     except OSError:
                         pass
                 self.files.clear()
-            p = os.path.join(self.dir, 'f_' + key + '.txt')
+            if index:
+                os.mkdir(os.path.join(self.dir, 'd_' + key))
+                p = os.path.join(self.dir, 'd_' + key, 'index.txt')
+            else:
+                p = os.path.join(self.dir, 'f_' + key + '.txt')
             with open(p, 'wb') as f:
                 f.write(content)
             self.files[key] = p
@@ -670,12 +710,25 @@ def run_request(case):
     c = dict(case)
     c['content'] = content
     kind = case['kind']
-    if kind in ('file', 'fobj', 'tool'):
-        c['path'] = env.path_for(content)
+    if kind in ('file', 'fobj', 'tool', 'index'):
+        c['path'] = env.path_for(content, index=(kind == 'index'))
         os.utime(c['path'], (case['mtime'], case['mtime']))
+        if case.get('missing') == 'nofile':
+            c['path'] = os.path.join(env.dir, 'no-such-file.txt')
+        elif case.get('missing') == 'dir':
+            c['path'] = env.dir
     env.case = c
-    ek = 's%de%d' % (1 if case.get('stream') else 0, case['etags'])
-    path = '/%s/%s' % (ek, kind) if kind != 'tool' else '/%s/sd/%s' % (ek, os.path.basename(c['path']))
+    ek = 'd%ds%de%d' % (1 if case.get('dbg') else 0, 1 if case.get('stream') else 0, case['etags'])
+    if kind == 'tool':
+        path = '/%s/sd/%s' % (ek, os.path.basename(c['path']))
+        if case.get('missing') == 'nomatch':
+            path = '/%s/sd/%s' % (ek, os.path.basename(c['path'])[:-4] + '.bin')
+        elif case.get('missing') == 'dotdot':
+            path = '/%s/sd/../%s' % (ek, os.path.basename(c['path']))
+    elif kind == 'index':
+        path = '/%s/sd/%s/' % (ek, os.path.basename(os.path.dirname(c['path'])))
+    else:
+        path = '/%s/%s' % (ek, kind)
     environ = {
         'REQUEST_METHOD': case['method'], 'PATH_INFO': path, 'SCRIPT_NAME': '', 'QUERY_STRING': '',
         'SERVER_NAME': 'localhost', 'SERVER_PORT': '80', 'SERVER_PROTOCOL': 'HTTP/' + case['proto'],
@@ -835,7 +888,7 @@ def model_line(case, obs=None):
         '1' if case['etags'] >= 1 else '0', '1' if case['etags'] == 2 else '0',
         enc_opt(case['hetag']), enc_text(auto), enc_opt(lm), enc_list(im), enc_list(inm),
         enc_opt(case.get('ims')), enc_opt(case.get('ius')), enc_opt(case.get('range')), cont,
-        enc_opt(multipart_boundary(obs)), enc_text('text/plain' if kind == 'tool' else 'application/x-test'),
+        enc_opt(multipart_boundary(obs)), enc_text('text/plain' if kind in ('tool', 'index') else 'application/x-test'),
         '1' if case.get('stream') else '0', script or '-', enc_text(EMPTY_TAG)])
 
 
@@ -897,6 +950,13 @@ def oracle_request(case, obs):
     cl = hd.get('content-length')
     if st >= 500:
         return [('status %d' % st, 'req:5xx')]
+    if case.get('missing'):
+        # no such resource: no validator, no range, nothing but 404
+        want = 403 if case['missing'] == 'dotdot' else 404
+        if st != want:
+            bad.append(('status %d for a resource that does not exist (%s), expected %d' % (st, case['missing'], want),
+                        'req:missing_not_404'))
+        return bad
     if method == 'HEAD' and body:
         bad.append(('HEAD answered with a %d-byte body' % len(body), 'req:head_with_body'))
     # ---- what would be served without conditional headers --------------------------------
@@ -1109,6 +1169,9 @@ def check_requests(ctx, cases, compare=True):
         ctx.count('Q:headers:' + ('+'.join(conds) or 'none'))
         ctx.count('Q:stream:%d' % (1 if case.get('stream') else 0))
         ctx.count('Q:proto:' + case['proto'])
+        for flag in ('dbg', 'disp', 'precl', 'raw', 'cookie', 'missing'):
+            if case.get(flag):
+                ctx.count('Q:flag:' + flag)
         if case['kind'] == 'gen':
             ctx.count('Q:gen:script:%s' % (case_script(case) or '-'))
             ctx.count('Q:gen:shape:%s' % case.get('shape', 'bytes'))
@@ -1126,7 +1189,7 @@ def check_requests(ctx, cases, compare=True):
                     what = [w for w, s2 in oracle_request(small, run_request(small)) if s2 == sig][0]
             ctx.oracle_fail(rep, '%s  [%s %s HTTP/%s etags=%d]' % (what, rep['method'], rep['kind'],
                                                                    rep['proto'], rep['etags']), sig)
-        if model is not None and not obs.get('exc'):
+        if model is not None and not obs.get('exc') and not case.get('missing'):
             ctx.compared()
             real, mod = canon_real(case, obs), canon_model(model[idx])
             if real != mod:
@@ -1183,6 +1246,7 @@ def _worker(args):
     import random
     rng = random.Random(seed)
     sub = _SubCtx()
+    cov = c16_cov.start()
     try:
         if what == 'unit':
             cases = []
@@ -1199,7 +1263,10 @@ def _worker(args):
             check_requests(sub, cases, compare=True)
     finally:
         _Env.cleanup()
-    return sub.dump()
+        c16_cov.stop()
+    d = sub.dump()
+    d['cov'] = cov.hits()
+    return d
 
 
 class _SubCtx:
@@ -1263,6 +1330,7 @@ def run(ctx):
         phases[name] = round(time.time() - t0, 1)
         t0 = time.time()
     ctx.extra['phase_wall_s'] = phases
+    cov = c16_cov.start()
     try:
         if ctx.model(['R 1 N']) is None and ctx.lean is not None and ctx.lean.driver_ok:
             raise common.HarnessError('driver drv_c16 not available')
@@ -1296,6 +1364,8 @@ def run(ctx):
         check_requests(ctx, flow)
         ctx.extra['flow_table_requests'] = len(flow)
         mark('requests_flow_table')
+        check_requests(ctx, enum_extras_table())
+        mark('requests_extras_table')
         check_requests(ctx, [gen_request(rng) for _ in range(ctx.budget(5000, 8000))])
         mark('requests_generated')
         if not ctx.quick():
@@ -1307,16 +1377,20 @@ def run(ctx):
                 jobs.append((base + 100 + i, 'req', 0, 4000))
             for lo in range(0, 41, 3):
                 jobs.append((0, 'exh', lo, min(lo + 3, 41)))
+            c16_cov.stop()            # the forked workers install their own monitor
             for d in common.parallel_map(_worker, jobs):
                 merge(ctx, d)
+                cov.add_hits(d.get('cov', []))
             mark('thorough_parallel')
             ctx.extra['exhaustive_small_scope'] = ('lengths 0..40 x %d small-grammar headers (all lists of <= 2 specs '
                                                    'over 8 boundary positions, plus whitespace / invalid variants)'
                                                    % (len(hs) + len(enum_medium_headers())))
             ctx.extra['thorough_unit_strings'] = 48 * 50000
             ctx.extra['thorough_requests'] = 48 * 4000
+        cov.report(ctx)
     finally:
         _Env.cleanup()
+        c16_cov.stop()
 
 
 def search(ctx, around=None):
